@@ -310,9 +310,12 @@ fn split(rng: &mut Rng, w: u32, k: u32) -> Vec<u32> {
     parts
 }
 
-fn pick_kind_width(rng: &mut Rng, n: u32) -> Option<(Kind, u32)> {
+fn pick_kind_width(rng: &mut Rng, n: u32, arb_only: bool) -> Option<(Kind, u32)> {
     // weights: Bool, Arb, Native, Signed, EnumExh, EnumOpt, Nested
-    let k = rng.weighted(&[16, 30, 12, 14, 9, 10, 9]);
+    // (for the C11 population the kinds whose setter argument is wider than the field -- signed,
+    // native, enum and nested raw values -- get a larger share: those are the ones that could
+    // spill past bit N-1)
+    let k = if arb_only { rng.weighted(&[10, 22, 14, 20, 8, 13, 13]) } else { rng.weighted(&[16, 30, 12, 14, 9, 10, 9]) };
     match k {
         0 => Some((Kind::Bool, 1)),
         1 => {
@@ -454,12 +457,12 @@ fn place_parts(rng: &mut Rng, parts: &[u32], room: u32, bias_top: bool, bias_bot
     ranges
 }
 
-fn gen_field(rng: &mut Rng, n: u32, idx: usize) -> Option<Field> {
-    let (kind, w) = pick_kind_width(rng, n)?;
+fn gen_field(rng: &mut Rng, n: u32, idx: usize, arb_only: bool) -> Option<Field> {
+    let (kind, w) = pick_kind_width(rng, n, arb_only)?;
     if w > n {
         return None;
     }
-    let bias_top = rng.chance(30, 100);
+    let bias_top = rng.chance(if arb_only { 45 } else { 30 }, 100);
     let bias_bottom = !bias_top && rng.chance(15, 100);
     let want_array = n >= 2 * w && rng.chance(30, 100);
     let multi = kind != Kind::Bool && w >= 2 && rng.chance(28, 100);
@@ -577,7 +580,7 @@ pub fn gen_layout(rng: &mut Rng, id: u32, o: GenOpts) -> Layout {
     let mut attempts = 0;
     while fields.len() < nfields && attempts < nfields * 12 {
         attempts += 1;
-        if let Some(f) = gen_field(rng, n, fields.len()) {
+        if let Some(f) = gen_field(rng, n, fields.len(), o.arb_only) {
             debug_assert!(f.top_bit() < n);
             let m = f.bitmask_all();
             if !allow_overlap && (m & used) != 0 {
